@@ -28,6 +28,15 @@ PRELUDE = r'''
 #include <stddef.h>
 typedef struct { double a0, a1; } gm2v_tup2;
 struct gm2v_obj;
+size_t gm2v_nondet_size(void) { size_t gm2v_s; return gm2v_s; }
+/* assumed contract of std::string::copy(dst, n): writes min(n, size()) characters to dst[0 .. min(n,size())) and returns that count.
+   Only the first and the last written byte are touched here: in-bounds-ness of the contiguous range follows from those two. */
+size_t gm2v_string_copy(size_t size, char *dst, size_t n)
+{
+  size_t cnt = (n < size) ? n : size;
+  if (cnt > 0) { dst[0] = 'x'; dst[cnt - 1] = 'x'; }
+  return cnt;
+}
 '''
 
 class CPrinter:
@@ -258,6 +267,11 @@ class CPrinter:
         I = '  ' * ind
         ty = d.type
         n = strip_ns(ty.name)
+        if n == 'std::string':
+            # a std::string local is represented by its (arbitrary) size; its characters are irrelevant for memory safety
+            self.fire('std::string->ghost-size')
+            env[d.name] = ('string', 'string')
+            return I + 'const size_t %s__size = gm2v_nondet_size();' % d.name
         if n == 'auto':
             src = d.init if d.init is not None else (d.ctor_args[0] if d.ctor_args else None)
             st = self.etype(src, env)
@@ -439,6 +453,8 @@ class CPrinter:
             return '((void)0)'
         if k is Str:
             return '"%s"' % e.value
+        if k is Chr:
+            return "'%s'" % e.value
         raise PrintError('expression %s not printable' % k.__name__)
 
     def ghost(self, name, e, env, cty='double'):
@@ -458,6 +474,13 @@ class CPrinter:
         return g
 
     def call(self, e, env):
+        if isinstance(e.f, Member) and isinstance(e.f.e, Id) and env.get(e.f.e.name, ('', ''))[0] == 'string':
+            if e.f.name == 'copy' and len(e.args) == 2:
+                self.fire('std::string::copy->contract')
+                return 'gm2v_string_copy(%s__size, %s, %s)' % (e.f.e.name, self.expr(e.args[0], env), self.expr(e.args[1], env))
+            if e.f.name in ('size', 'length'):
+                return '%s__size' % e.f.e.name
+            raise PrintError('std::string::%s' % e.f.name)
         if isinstance(e.f, Member) and isinstance(e.f.e, Id) and env.get(e.f.e.name, ('', ''))[1] == 'obj':
             return self.ghost(e.f.name, e, env)
         if not isinstance(e.f, Id):
